@@ -161,13 +161,18 @@ fn check(case: &Case, st: &mut Stats) -> Vec<Violation> {
     let d = case.script.delete_after();
     let empty: Arc<Snapshot> = Arc::new(Snapshot::new());
     let mut counts: BTreeMap<u32, u64> = BTreeMap::new();
-    let mut other_seen = false; // a frame of a format outside the nine passed: its count is not judged
+    let mut other_seen = false; // a frame of a format outside the nine passed: its count is only bounded
+    // formats outside the nine: the reference cannot name the address such a frame carries, so "non-zero address"
+    // is unknown - but a frame that visibly changed the table was applied (lower bound), and no counter can
+    // exceed the number of frame-shaped lines of its format that passed the filter (upper bound)
+    let mut other_lo: BTreeMap<u32, u64> = BTreeMap::new();
+    let mut other_hi: BTreeMap<u32, u64> = BTreeMap::new();
     let mut cur_conn = usize::MAX;
     let mut compared = 0;
     let mut filtered_seen = 0;
     'steps: for (i, s) in h.steps.iter().enumerate() {
         let before = if i == 0 { &empty } else { &h.steps[i - 1].after };
-        if s.conn != cur_conn { counts.clear(); other_seen = false; cur_conn = s.conn; }
+        if s.conn != cur_conn { counts.clear(); other_lo.clear(); other_hi.clear(); other_seen = false; cur_conn = s.conn; }
         st.state(abstract_state(&s.after, s.t_us, d, if with_c { "c" } else { "-" }, s.tag.split(':').next().unwrap_or("")));
         let mut passing = 0;
         let mut all_filtered_or_rejected = true;
@@ -178,7 +183,11 @@ fn check(case: &Case, st: &mut Stats) -> Vec<Violation> {
             if let Some(f) = &filter { if !f.contains(&c.df) { filtered_here += 1; continue; } }
             all_filtered_or_rejected = false;
             passing += 1;
-            if c.judged { *counts.entry(c.df).or_insert(0) += 1; } else { other_seen = true; }
+            if c.judged { *counts.entry(c.df).or_insert(0) += 1; } else {
+                other_seen = true;
+                *other_hi.entry(c.df).or_insert(0) += 1;
+                if s.lines.len() == 1 && **before != *s.after { *other_lo.entry(c.df).or_insert(0) += 1; st.probe("other_df_frame_applied"); }
+            }
         }
         filtered_seen += filtered_here;
         if filtered_here > 0 { st.probe("filtered_frame_seen"); }
@@ -231,6 +240,17 @@ fn check(case: &Case, st: &mut Stats) -> Vec<Violation> {
                     if let Some((k, _)) = printed.iter().find(|(k, _)| !NINE.contains(k)) {
                         v.push(viol("C16.count", i, format!("counter line {:?} lists DF{} although no such frame passed", line, k), json!({"phantom_df": k})));
                         break 'steps;
+                    }
+                } else {
+                    let keys: std::collections::BTreeSet<u32> = printed.keys().copied().filter(|k| !NINE.contains(k)).chain(other_lo.keys().copied()).collect();
+                    for k in keys {
+                        let got = printed.get(&k).and_then(|g| g.parse::<u64>().ok());
+                        let (lo, hi) = (other_lo.get(&k).copied().unwrap_or(0), other_hi.get(&k).copied().unwrap_or(0));
+                        let shown = got.unwrap_or(0);
+                        if shown < lo || shown > hi || (printed.contains_key(&k) && got.is_none()) {
+                            v.push(viol("C16.count", i, format!("counter line {:?}: DF{} shows {:?}, but {} frame(s) of DF{} visibly changed the table and {} frame-shaped line(s) of it passed the filter on this connection", line, k, printed.get(&k), lo, k, hi), json!({"other_df": k, "low": shown < lo})));
+                            break 'steps;
+                        }
                     }
                 }
             }
